@@ -21,7 +21,9 @@ pub fn def() -> PropDef {
                bytes); documented panics must happen; a non-null buf_write_ptr must not claim more than the \
                buffer can hold. Executed in a build with debug assertions + overflow checks, in a plain release \
                build, and under AddressSanitizer when the nightly toolchain provides it; a worker crash is a \
-               violation. Non-trivial: at least one caught panic followed by >= 2 further observed operations.",
+               violation. Histories also set absurd chunk sizes (usize::MAX - k: the refill panics, the window must \
+               survive). The parsers' raw 8-byte loads are covered by running the C01 comparison (one-shot versus \
+               re-chunked, all input classes) in the same three builds. Non-trivial: at least one caught panic followed by >= 2 further observed operations.",
         assumptions: &[
             "reads of stale bytes inside the reader's own allocation are only caught when they change an observable result",
             "AddressSanitizer shards run only if `cargo +nightly build -Zsanitizer=address` works in the sandbox (reported in notes otherwise)",
@@ -61,7 +63,32 @@ pub fn check_writer(h: &WHistory, obs: &mut Obs) -> CheckResult {
     Ok(())
 }
 
+/// The parsers read the reader's buffer through raw pointers (8-byte loads of the keyword and
+/// number scanners). Memory safety of those loads is observable in two ways: the sanitizer shard
+/// aborts on a load outside the allocation, and a load of stale bytes inside the allocation changes
+/// a result that must not depend on how the bytes arrive. So: the C01 comparison (one-shot versus
+/// re-chunked), executed in all three builds, with any panic counted as a failure.
+pub fn check_parsers(c: &crate::props::c01::Case, obs: &mut Obs) -> CheckResult {
+    let retag = |f: Failure| Failure::new(format!("C14:parsers:{}", f.sig), f.detail);
+    crate::props::c01::check(c, obs).map_err(retag)?;
+    let data = std::rc::Rc::new(c.input.bytes.clone());
+    for feed in [crate::source::Feed::one_shot(), c.feed.clone()] {
+        let (t, _) = crate::drivers::run(&c.input.spec, data.clone(), &feed, None, false);
+        if let crate::drivers::Final::Panic { msg, loc } = &t.fin {
+            return Err(Failure::new(
+                format!("C14:parsers:panic:{}", c.input.spec.parser.name()),
+                format!("{} panicked at {}: {}; input {:?}", c.input.spec.describe(), loc, msg, crate::engine::show_bytes(&data)),
+            ));
+        }
+    }
+    Ok(())
+}
+
 fn run(ctx: &Ctx) {
+    let n = ctx.share(ctx.tier.pick(120_000, 3_000_000));
+    let strat = (crate::inputs::input_strategy(10, true), crate::source::parser_feed_strategy())
+        .prop_map(|(input, feed)| crate::props::c01::Case { input, feed });
+    ctx.run_cases("parsers", n, strat, check_parsers);
     let n = ctx.share(ctx.tier.pick(160_000, 3_000_000));
     let strat = (
         history_strategy(400, 50, true),
@@ -78,6 +105,10 @@ fn run(ctx: &Ctx) {
 
 fn replay(oracle: &str, v: &Value) -> Option<CheckResult> {
     match oracle {
+        "parsers" => Some(match replay_from_file::<crate::props::c01::Case>(v) {
+            Ok(c) => check_parsers(&c, &mut Obs::default()),
+            Err(e) => Err(Failure::new("C14:decode", e)),
+        }),
         "reader-history" => Some(match replay_from_file::<History>(v) {
             Ok(h) => check_reader(&h, &mut Obs::default()),
             Err(e) => Err(Failure::new("C14:decode", e)),
